@@ -1,7 +1,7 @@
 //! Independent reference lexer (properties C06, C07), written from the README: string literals with
 //! the two escapes `\\` and `\"`, `/* */` and `//` comments, Unicode whitespace, longest-match
 //! operators, and the classification of a maximal word into decimal / `0x` integer, positional or
-//! scientific float (an exponent sign joins `<mantissa>e`, sign and digits into one literal),
+//! scientific float (an exponent sign joins `<mantissa>e` or `<mantissa>E`, sign and digits into one literal),
 //! boolean, or identifier.
 
 use super::value::RV;
@@ -262,7 +262,7 @@ pub fn lex(src: &str) -> Result<Vec<LTok>, Vec<Fault>> {
         // exponent sign: `<mantissa>e` + sign + digits is one float literal
         let class = classify_word(&w);
         if class == WordClass::Ident
-            && w.ends_with('e')
+            && (w.ends_with('e') || w.ends_with('E'))
             && is_mantissa(&w[..w.len() - 1])
             && i + 1 < cs.len()
             && (cs[i] == '+' || cs[i] == '-')
